@@ -400,6 +400,36 @@ def run(ctx):
                fact=str(g[0]) if g else 'no `amount < 0 -> ValueError` gate',
                why='a negative quantity can be added (negative contents / volume)',
                key='no sign gate on added quantity')
+    # .. and the gate is on the very amount that is stored (a gate on the volume alone lets a negative amount of a
+    # substance that takes no volume through: solids / enzymes under an infinite default density)
+    nst = 0
+    for stmt, target, key, value, before, rt in ffa.stores:
+        if not (key and key.startswith('self.contents[')):
+            continue
+        added = [l for sg, l in signed_leaves(unround(strip_refs(value) if isinstance(value, Ref) else value)[0], follow=False)
+                 if sg == 1 and user_derived(l)]
+        for leaf in added:
+            nst += 1
+
+            def same_amount(c, leaf=leaf):
+                if c.op not in ('le', 'lt') or not zero(c.left):
+                    return False
+                r = unround(c.right)[0]
+                cands = [r]
+                r0 = r
+                while isinstance(r0, Ref):
+                    r0 = r0.value
+                    cands.append(r0)
+                if isinstance(r0, Phi):         # the gated value is the join of the branch definitions: each of them is gated
+                    cands.extend(r0.options)
+                return any(x is leaf or same_value(x, leaf) or
+                           (isinstance(x, Ref) and isinstance(leaf, Ref) and x.defid == leaf.defid) for x in cands)
+            g = gate_with(before, same_amount, 'ValueError')
+            ctx.ob('C03.R3', sa, stmt.lineno, f"sign gate on the amount stored into `{key}`", bool(g),
+                   fact=str(g[0]) if g else f"no `{show(leaf, 30)} < 0 -> ValueError` gate on the stored amount itself",
+                   why='a negative amount of a substance that takes no volume passes a gate on the volume: the container holds a negative amount',
+                   key='no sign gate on stored amount')
+    floor(ctx, 'amounts stored by _self_add', nst, 1)
     # fill_to: target > 0 and required amount >= 0
     ft = model.func('Container.fill_to')
     fff = ctx.flow('Container.fill_to')
